@@ -12,6 +12,7 @@
 -/
 import IocProofs.Lemmas.ConcPaths
 import IocProofs.Lemmas.ConcWait
+import IocProofs.Lemmas.ConcNames
 
 namespace Ioc.C14
 open Ioc.Conc
@@ -230,5 +231,49 @@ example : Reach cfg 4 (fun i => (4 : Nat).testBit i) (schedule cfg 4 (fun i => (
 
 example : (schedule cfg 5 (fun i => (1 : Nat).testBit i) 280 77 init).mainPc = 3 ∧
     (List.range 5).all (fun i => (schedule cfg 5 (fun i => (1 : Nat).testBit i) 280 77 init).calls i == 1) = true := by decide
+
+/-! ### sixth round: closers whose names differ only in letter case
+
+Which registered components reach `App.CloserComponents` is decided by the wiring; one link of it is modelled here: every
+registered component gets its definition through ONE load-or-store of the definition registry's map under the component's
+name (container/support/component_definition_registry.go:43-50; `Ioc.Conc.definedNames`, section 6 of Ioc.Conc). The singleton
+registry accepts every name that is not EQUAL to a registered one, so the registered names are pairwise different — nothing
+more. -/
+
+/-- With the map keyed by the name itself (the code), every registered component gets a definition of its own, whatever the
+    names look like — in particular names that differ only in letter case — and in whatever order the parallel scans arrive. -/
+theorem C14_exact_names_all_defined {α : Type} [DecidableEq α] (names : List α) (h : names.Nodup) :
+    definedNames (fun x => x) names = names :=
+  definedFrom_all (fun x => x) names [] h (fun _ _ _ _ e => e) (fun _ _ hm => by cases hm)
+
+/-- More generally: any key that is injective on the registered names keeps all of them … -/
+theorem C14_injective_key_all_defined {α κ : Type} [DecidableEq κ] (key : α → κ) (names : List α) (h : names.Nodup)
+    (hinj : ∀ a, a ∈ names → ∀ b, b ∈ names → key a = key b → a = b) : definedNames key names = names :=
+  definedFrom_all key names [] h hinj (fun _ _ hm => by cases hm)
+
+/-- … and any key under which two DIFFERENT registered names collide leaves a registered component without a definition
+    (it is never created, never collected as a closer, never closed), in every order of arrival. -/
+theorem C14_colliding_key_drops_a_component {α κ : Type} [DecidableEq κ] (key : α → κ) (names : List α) (a b : α)
+    (ha : a ∈ names) (hb : b ∈ names) (hne : a ≠ b) (hk : key a = key b) :
+    (definedNames key names).length < names.length :=
+  definedFrom_drops key names [] (Or.inr ⟨a, ha, b, hb, hne, hk⟩)
+
+/-- A key that forgets the letter case is such a key: of the closers `orders`, `Orders`, `payments` only two get a
+    definition, in both orders of arrival. -/
+theorem C14_case_folded_key_counterexample :
+    definedNames foldCase ["orders".toList, "Orders".toList, "payments".toList] = ["orders".toList, "payments".toList] ∧
+    definedNames foldCase ["Orders".toList, "orders".toList, "payments".toList] = ["Orders".toList, "payments".toList] := by
+  decide
+
+-- non-vacuity: the hypotheses of C14_exact_names_all_defined hold for names that differ only in letter case
+example : ["orders".toList, "Orders".toList, "ORDERS".toList, "oRDERS".toList].Nodup := by decide
+
+/-- the run the driver makes for `closec 2 4 m2d 39` (two ordinary closers, the type-named kase.Hub and a closer that names
+    itself `…/kase/hub`; closer 2 fails): four registered closer components, a run of the system that ends with Close
+    returned and every closer invoked once -/
+example : Reach cfg 4 (fun i => (4 : Nat).testBit i) (schedule cfg 4 (fun i => (4 : Nat).testBit i) 240 39 init) ∧
+    mainReturned (schedule cfg 4 (fun i => (4 : Nat).testBit i) 240 39 init) ∧
+    (List.range 4).all (fun i => (schedule cfg 4 (fun i => (4 : Nat).testBit i) 240 39 init).calls i == 1) = true :=
+  ⟨schedule_sound cfg 4 _ 240 39 init, by unfold mainReturned; decide, by decide⟩
 
 end Ioc.C14
